@@ -2002,6 +2002,9 @@ func unmarshalInet(info TypeInfo, data []byte, value interface{}) error {
 
 func marshalTuple(info TypeInfo, value interface{}) ([]byte, error) {
 	tuple := info.(TupleTypeInfo)
+	if value == nil {
+		return nil, nil
+	}
 	switch v := value.(type) {
 	case unsetColumn:
 		return nil, unmarshalErrorf("Invalid request: UnsetValue is unsupported for tuples")
@@ -2233,6 +2236,9 @@ type UDTUnmarshaler interface {
 func marshalUDT(info TypeInfo, value interface{}) ([]byte, error) {
 	udt := info.(UDTTypeInfo)
 
+	if value == nil {
+		return nil, nil
+	}
 	switch v := value.(type) {
 	case Marshaler:
 		return v.MarshalCQL(info)
